@@ -229,9 +229,30 @@ pub fn run_case(id: &str, case: &Value) -> Value {
                 json!({"ev": "ndp", "id": id, "bytes": b, "steps": ndp_steps(&c, icmpv6::NdpOptionsIterator::from_slice(&b)), "oh": oh, "echo": echo, "direct": direct})
             }
             "igmp" => match IgmpHeader::from_slice(&b) {
-                Err(e) => json!({"ev": "igmp", "id": id, "bytes": b, "ok": 0, "req": e.required_len, "len": e.len, "kind": "", "hlen": -1, "norm": [], "rest": [-1, -1]}),
-                Ok((h, rest)) => json!({"ev": "igmp", "id": id, "bytes": b, "ok": 1, "req": -1, "len": -1, "kind": vname(&h.igmp_type), "hlen": h.header_len(),
-                                        "norm": h.to_bytes().to_vec(), "rest": rg(&c, rest)}),
+                Err(e) => json!({"ev": "igmp", "id": id, "bytes": b, "ok": 0, "req": e.required_len, "len": e.len, "kind": "", "hlen": -1, "norm": [], "rest": [-1, -1], "tf": [], "back": -1}),
+                Ok((h, rest)) => {
+                    // typed fields: type number, then every field / accessor of the variant
+                    use IgmpType::*;
+                    let g = |a: &igmp::GroupAddress| -> Vec<i64> { <[u8; 4]>::from(*a).iter().map(|x| *x as i64).collect() };
+                    let mut tf: Vec<i64> = vec![];
+                    match &h.igmp_type {
+                        MembershipQuery(q) => { tf.push(0x11); tf.push(q.max_response_time as i64); tf.extend(g(&q.group_address)); }
+                        MembershipQueryWithSources(q) => {
+                            tf.push(0x11); tf.push(q.max_response_code.0 as i64); tf.push(q.max_response_code.as_10th_secs() as i64); tf.extend(g(&q.group_address));
+                            tf.extend([q.flags() as i64, q.s_flag() as i64, q.qrv().value() as i64, q.qqic as i64, q.num_of_sources as i64]);
+                        }
+                        MembershipReportV1(q) => { tf.push(0x12); tf.extend(g(&q.group_address)); }
+                        MembershipReportV2(q) => { tf.push(0x16); tf.extend(g(&q.group_address)); }
+                        LeaveGroup(q) => { tf.push(0x17); tf.extend(g(&q.group_address)); }
+                        MembershipReportV3(q) => { tf.push(0x22); tf.extend([q.flags[0] as i64, q.flags[1] as i64, q.num_of_records as i64]); }
+                        Unknown(q) => { tf.push(q.igmp_type as i64); tf.push(q.raw_byte_1 as i64); tf.extend(q.raw_bytes_4_7.iter().map(|x| *x as i64)); }
+                    }
+                    tf.push(h.checksum as i64);
+                    // encode -> decode gives the value back
+                    let back = IgmpHeader::from_slice(&h.to_bytes()).map(|(x, r)| x == h && r.is_empty()).unwrap_or(false);
+                    json!({"ev": "igmp", "id": id, "bytes": b, "ok": 1, "req": -1, "len": -1, "kind": vname(&h.igmp_type), "hlen": h.header_len(),
+                           "norm": h.to_bytes().to_vec(), "rest": rg(&c, rest), "tf": tf, "back": if back { 1 } else { 0 }})
+                }
             },
             "grouprec" => match igmp::ReportGroupRecordV3Header::from_slice(&b) {
                 Err(e) => json!({"ev": "grouprec", "id": id, "bytes": b, "ok": 0, "req": e.required_len, "len": e.len, "f": [], "rest": [-1, -1], "re": []}),
